@@ -280,7 +280,23 @@ func runC07(c *eng.Ctx) {
 			}
 			return true
 		})
-		if fmap != nil && vObj != nil && okObj != nil {
+		// the collection may be a verdict map (id -> keep?) or a set of the ids to drop (id -> struct{}{} / true)
+		isSet := false
+		if fmap != nil {
+			if mt, isMap := fmap.Type().Underlying().(*types.Map); isMap {
+				if _, isStruct := mt.Elem().Underlying().(*types.Struct); isStruct {
+					isSet = true
+				}
+			}
+		}
+		if isSet && okObj != nil {
+			// `_, dropped := set[id]`: unknown id -> keep, listed id -> drop
+			unknown, ok1 := fg.EvalBoolResult(map[types.Object]bool{okObj: false})
+			listed, ok2 := fg.EvalBoolResult(map[types.Object]bool{okObj: true})
+			okDefault = ok1 && unknown
+			okKnown = ok2 && !listed
+		}
+		if !isSet && fmap != nil && vObj != nil && okObj != nil {
 			unknown, ok1 := fg.EvalBoolResult(map[types.Object]bool{okObj: false, vObj: false})
 			keep, ok2 := fg.EvalBoolResult(map[types.Object]bool{okObj: true, vObj: true})
 			drop, ok3 := fg.EvalBoolResult(map[types.Object]bool{okObj: true, vObj: false})
@@ -289,7 +305,7 @@ func runC07(c *eng.Ctx) {
 		}
 		r4.Check(okDefault && okKnown, a.Key+" filter-callback", fLit.Lit.Pos(), "known id -> recorded verdict, unknown id -> keep", "the Filter callback does not keep tasks it does not know (tasks appended while combining would be dropped) or does not return the recorded verdict")
 		// verdicts: head true, merged false
-		headTrue, mergedFalse := false, false
+		headTrue, mergedFalse, headListed := false, false, false
 		eng.InspectNoLit(a.Decl.Body, func(n ast.Node) bool {
 			as, ok := n.(*ast.AssignStmt)
 			if !ok || len(as.Lhs) != 1 {
@@ -300,6 +316,9 @@ func runC07(c *eng.Ctx) {
 				return true
 			}
 			bv, isC := constBool(info, as.Rhs[0])
+			if isSet {
+				bv, isC = false, true // an entry of the drop set is the verdict "drop"
+			}
 			if !isC {
 				return true
 			}
@@ -314,11 +333,17 @@ func runC07(c *eng.Ctx) {
 			if eng.SelObj(info, s.X) == taskPrm && bv {
 				headTrue = true
 			}
+			if eng.SelObj(info, s.X) == taskPrm && isSet {
+				headListed = true
+			}
 			if loop != nil && eng.LoopOf(a.Decl.Body, as.Pos()) == loop.Stmt && !bv && loop.IsElem(s.X) {
 				mergedFalse = true
 			}
 			return true
 		})
+		if isSet {
+			headTrue = !headListed // the head is kept because it is never listed
+		}
 		r4.Check(headTrue && mergedFalse, a.Key+" filter-verdicts", a.Decl.Pos(), "head -> true, every merged task -> false", "the verdict map is not `head kept, exactly the merged tasks dropped`")
 	}
 
